@@ -326,8 +326,6 @@ class SyncGen:
                 arc_threads = [1, 2]
         dropped = set()
         order = list(range(2, n + 2)) + [1]
-        if self.safe:
-            receiver = 1
         for t in order:
             tb = tbs[t]
             self.cur_t = t
@@ -517,8 +515,6 @@ def waived(p):
     w = {}
     if ops & {"trylock", "tryread", "trywrite"}:
         w["complete"] = "F13"       # a failing try_* is only seen if the holder is preempted inside its critical section
-    if "tryrecv" in ops:
-        w["complete"] = "F9"        # try_recv on an empty channel is no branch point
     if "yield" in ops:
         w["complete"] = "yield"     # yield_now deprioritises the thread: which schedules are explored is C18's subject, not claimed here       # Arc inspections: single last-access slot per class
     return w
